@@ -102,6 +102,8 @@ bool entry_domain(const std::string & n, Domain & d)
   if(n == "add_accum" || n == "sub_accum") { d = { K_FIX, K_COUNT }; return true; }
   if(n == "sin_angle_aprox" || n == "cos_angle_aprox") { d = { K_ANGLE, K_NONE }; return true; }
   if(n == "sin_angle_tab" || n == "cos_angle_tab") { d = { K_IDX361, K_NONE }; return true; }
+  for(const char * p : { "sin_angle_aprox_", "cos_angle_aprox_", "sin_angle_tab_", "cos_angle_tab_" })
+    if(starts(n, p)) { Kind k = kind_of_tag(n.substr(strlen(p))); if(k == K_NONE) return false; d = { k, K_NONE }; return true; }
   if(n == "tan_tab" || n == "square_root_tab") { d = { K_IDX256, K_NONE }; return true; }
   if(n == "udl_int") { d = { K_U64, K_NONE }; return true; }
   if(n == "udl_float") { d = { K_F64, K_NONE }; return true; }
